@@ -50,6 +50,7 @@ func doReplay(path string) int {
 		fmt.Fprintln(os.Stderr, err)
 		return 2
 	}
+	codegenBin = prep.CodegenBin
 	abs, _ := filepath.Abs(path)
 	out := filepath.Join(work, "replay.jsonl")
 	if rf.Fatal {
